@@ -2,9 +2,18 @@
 # confirm_seed.sh <PID> <k> : independently confirm a seeded change produced by a sub-agent:
 #   (1) it applies to a fresh worktree of /repo HEAD, (2) the unedited test suite passes with it,
 #   (3) its demonstration fails with it and passes without it. Writes /tmp/mut/confirm/<PID>-<k>.log
-PID=$1; K=$2
-OUT=/tmp/mut/$PID-out; WT=/tmp/mut/confirm-wt-$PID-$K; LOG=/tmp/mut/confirm/$PID-$K.log
-mkdir -p /tmp/mut/confirm; : > $LOG
+# confirm_seed.sh --seeded <sid> : the same for a change kept under /verif/seeded/<sid>/ (patch.diff, demo/); log in /tmp/seeded-confirm/
+if [ "$1" = "--seeded" ]; then
+  SID=$2; PID=${SID%%-*}; K=${SID##*-}
+  STAGE=$(mktemp -d /tmp/seeded-stage-XXXX); OUT=$STAGE
+  cp /verif/seeded/$SID/patch.diff $OUT/patch$K.diff; cp -r /verif/seeded/$SID/demo $OUT/demo$K
+  WT=/tmp/seeded-wt-$SID; mkdir -p /tmp/seeded-confirm; LOG=/tmp/seeded-confirm/$SID.log
+else
+  PID=$1; K=$2
+  OUT=/tmp/mut/$PID-out; WT=/tmp/mut/confirm-wt-$PID-$K; LOG=/tmp/mut/confirm/$PID-$K.log
+  mkdir -p /tmp/mut/confirm
+fi
+: > $LOG
 export CARGO_NET_OFFLINE=true
 git -C /repo worktree add -f $WT HEAD -q >>$LOG 2>&1 || { echo "RESULT worktree-failed" >>$LOG; exit 1; }
 cd $WT
@@ -23,4 +32,5 @@ git status --short | grep -v _demo >>$LOG
 echo "demo without change: exit=$O $(grep -o 'PASS\|FAIL' $LOG.demo_without | tail -1)" >>$LOG
 if [ "$T" = pass ] && [ $W -ne 0 ] && [ $O -eq 0 ]; then echo "RESULT confirmed" >>$LOG; else echo "RESULT not-confirmed tests=$T with=$W without=$O" >>$LOG; fi
 cd /; git -C /repo worktree remove --force $WT >>$LOG 2>&1; git -C /repo worktree prune
+[ -n "$STAGE" ] && rm -rf $STAGE
 tail -6 $LOG
